@@ -282,9 +282,10 @@ def instances_view(w, static):
     for cid, ec in enumerate(w.classes):
         who = ec.python_class if static else ec
         rows = []
-        for rs in [None] + [(r,) for r in w.res]:
+        # (an empty selection of resources — a list, a tuple — is a selection too: both renderings answer it alike)
+        for rs in [None, [], ()] + [(r,) for r in w.res] + ([list(w.res)] if w.res else []):
             try:
-                got = who.allInstances(resources=rs) if rs else who.allInstances()
+                got = who.allInstances(resources=rs) if rs is not None else who.allInstances()
                 rows.append(sorted(i for i in (w.oid(x) for x in got) if i is not None))
             except Exception as e:
                 rows.append('raised ' + type(e).__name__)
@@ -590,6 +591,53 @@ def narrow_opposite_pass(ctx):
                     return
 
 
+def class_lists_pass(ctx):
+    """the other lists of a class — annotations, type parameters — edited the same way on the EClass of a static class and
+    on a dynamic EClass: same results, same exceptions"""
+    from pyecore import ecore as E
+    mod = types_module("from pyecore.ecore import *\nclass S(EObject, metaclass=MetaEClass):\n    x = EAttribute(eType=EString)\n")
+    for k, what in enumerate(['annotation', 'type-parameter', 'two-annotations', 'annotation-clear']):
+        outs = []
+        for side in ('dynamic', 'static'):
+            ec = E.EClass('S') if side == 'dynamic' else mod.S.eClass
+            if side == 'dynamic':
+                ec.eStructuralFeatures.append(E.EAttribute('x', E.EString))
+            log = []
+            try:
+                if what == 'type-parameter':
+                    tp = E.ETypeParameter('T')
+                    ec.eTypeParameters.append(tp); log.append(len(ec.eTypeParameters))
+                    ec.eTypeParameters.remove(tp); log.append(len(ec.eTypeParameters))
+                else:
+                    anns = [E.EAnnotation(f'src{i}') for i in range(2 if what != 'annotation' else 1)]
+                    for a_ in anns:
+                        ec.eAnnotations.append(a_)
+                    log.append(len(ec.eAnnotations))
+                    if what == 'annotation-clear':
+                        ec.eAnnotations.clear()
+                    else:
+                        ec.eAnnotations.remove(anns[0])
+                    log.append(len(ec.eAnnotations))
+                log.append('ok')
+            except Exception as e:
+                log.append('raised ' + type(e).__name__)
+                log.append(len(ec.eAnnotations))
+            log.append(ec.python_class().x is None)
+            outs.append(log)
+            if side == 'static':          # (leave the static class as it was for the next round)
+                for a_ in list(ec.eAnnotations):
+                    try:
+                        ec.eAnnotations.remove(a_)
+                    except Exception:
+                        pass
+        ctx.evaluations += 1
+        ctx.nontriv(('class-lists', k))
+        if outs[0] != outs[1]:
+            ctx.violate({'clause': 'result-differs', 'op': 'class-lists'},
+                        f'{what} added to and removed from the class: dynamic {outs[0]}, static {outs[1]}', {'class_lists': what})
+            return
+
+
 def types_module(src):
     import types as _t
     static_render._count[0] += 1
@@ -619,6 +667,7 @@ def run(ctx):
     history_pass(ctx)
     constructor_pass(ctx)
     narrow_opposite_pass(ctx)
+    class_lists_pass(ctx)
     ctx.assumptions += ['operations are compared by name, parameter names in order and required flags; the reflected `self` parameter of a '
                         'static method is written explicitly on the dynamic side (a dynamic EOperation without it describes the same method)',
                         'order of notifications across different (notifier, feature) pairs is not compared (delete() walks a set)']
